@@ -1664,6 +1664,7 @@ fn handle(req: &Value, features: &[String], cache: &mut HashMap<String, Result<S
     let s: &Source = unsafe { &*cur_src };
     let mut scope = Scope::Items(live_items(s.file.items.iter(), features));
     let mut found = None;
+    let mut siblings: Option<Vec<String>> = None;
     for sel in &path[start_idx..] {
         // a `fn x` selector after a function selects a nested fn item declared in that function's body
         if let Some(Found::Fn { block, .. }) = &found {
@@ -1688,6 +1689,13 @@ fn handle(req: &Value, features: &[String], cache: &mut HashMap<String, Result<S
         if found.is_some() {
             return Err(format!("selector `{}` after a leaf", sel));
         }
+        // the methods an `impl` block defines (a trait impl that gains an override changes which code runs for the type, whether or not
+        // that method is under contract): reported so that the caller can compare with what it was when the contracts were written
+        if let Scope::ImplItems(items) = &scope {
+            let mut names: Vec<String> = items.iter().filter_map(|it| if let syn::ImplItem::Fn(f) = it { Some(f.sig.ident.to_string()) } else { None }).collect();
+            names.sort();
+            siblings = Some(names);
+        }
         match step(s, scope, sel, features)? {
             Ok(sc) => scope = sc,
             Err(f) => {
@@ -1701,6 +1709,9 @@ fn handle(req: &Value, features: &[String], cache: &mut HashMap<String, Result<S
         Some(Found::Item(it)) => handle_item(&s.text, it, features)?,
         None => return Err("path does not end at a fn or item".into()),
     };
+    if let Some(sib) = siblings {
+        res["siblings"] = json!(sib);
+    }
     if start_idx > 0 {
         if let Some(l) = res["log"].as_array_mut() {
             l.push(json!(format!("R8:macro instantiated: {}", path[start_idx - 1])));
